@@ -309,6 +309,18 @@ def r3_include_is_transparent(ctx: Ctx) -> None:
           and len(rets) == 1 and isinstance(rets[0].value, ast.Call) and call_name(rets[0].value) == "BlockAstNode"
           and canon(pk_fn, rets[0].value.args[0]).endswith(".parse()") and unparse(rets[0].value.args[1]) == "keyword")
     ctx.check(ok, "parse_keyword[include]", "the file is scanned and parsed with the same entry states and spliced as a BlockAstNode")
+    # the scanner only lets through directive names listed in KEYWORDS: every name parse_keyword has an arm for must be listed, `include` first
+    kw = module_const(ctx.repo, "a816.parse.scanner_states", "KEYWORDS")
+    if not isinstance(kw, (set, frozenset, list, tuple)):
+        raise AnalysisError("KEYWORDS is not a literal collection")
+    import re as _re16
+
+    for t, _b in arms:
+        for name in _re16.findall(r"'([a-z_]+)'", unparse(t)):
+            ctx.count("keyword_arms")
+            ctx.check(name in kw, f"KEYWORDS[{name}]", f"parse_keyword has an arm for `.{name}` but the scanner's KEYWORDS table does not list it: the directive is "
+                      "rejected as an unknown keyword before the parser sees it", fact=True)
+    ctx.floor("keyword_arms", 10)
     gens = module_const(ctx.repo, "a816.parse.codegen", "generators")
     g = gens.get("block") if isinstance(gens, dict) else None
     ok = isinstance(g, NameRef)
